@@ -7,6 +7,7 @@ import (
 	"path/filepath"
 	"runtime/debug"
 	"sort"
+	"strconv"
 	"strings"
 	"sync"
 	"time"
@@ -44,6 +45,7 @@ func newEngine() *Engine {
 		assumed:   map[string]bool{},
 		siteNames: map[ssa.Instruction]string{},
 		loopInfo:  map[*ssa.Function]*loopAnalysis{},
+		globalPlaces: map[string]*Term{},
 		arrSpecs:  map[*Term]func(*Term) Value{},
 		arrFacts:  map[*Term]func(*State, *Term){},
 	}
@@ -136,6 +138,7 @@ func (e *Engine) runInits() {
 
 type FuncReport struct {
 	Func   string
+	Exits  int
 	Paths  int
 	Err    string
 	Secs   float64
@@ -219,7 +222,18 @@ func (e *Engine) verifyFunction(fn *ssa.Function) (rep FuncReport) {
 			e.onReturn(fn, r)
 		}
 	}
+	rep.Exits = len(e.exited)
 	for _, st := range e.exited {
+		if ct != nil && len(st.frames) > 0 {
+			for i, ex := range ct.exits {
+				g := e.evalSpecBool(st, st.frames[0], ex, nil)
+				label := ex.label
+				if label == "" {
+					label = strconv.Itoa(i)
+				}
+				e.oblige(st, "POST", fmt.Sprintf("%s#EXIT:%s", e.shortFunc(fn), label), "exits "+ex.text, fn.Pos(), g)
+			}
+		}
 		if e.onExit != nil {
 			e.onExit(fn, st)
 		}
